@@ -48,3 +48,14 @@ void jcsa_use_sources(std::istream& is, const std::vector<uint8_t>& v, std::basi
     (void)s1.read(tmp, 8); (void)s1.peek(); s1.ignore(1); (void)s1.read_span(4, buf);
     (void)s2.read(tmp, 8); (void)s2.peek(); s2.ignore(1); (void)s2.read_span(4, buf);
 }
+
+// integer readers (all overloads, so that every digit loop of read_number.hpp is analysed)
+void jcsa_use_read_number(const char* s, std::size_t n, const wchar_t* w)
+{
+    using namespace jsoncons;
+    uint64_t u64; int64_t i64; uint32_t u32; int32_t i32; uint8_t u8; int16_t i16;
+    (void)dec_to_integer(s, n, u64); (void)dec_to_integer(s, n, i64); (void)dec_to_integer(s, n, u32); (void)dec_to_integer(s, n, i32);
+    (void)dec_to_integer(s, n, u8); (void)dec_to_integer(s, n, i16); (void)dec_to_integer(w, n, u64); (void)dec_to_integer(w, n, i64);
+    (void)to_integer(s, n, u64); (void)to_integer(s, n, i64); (void)to_integer(s, n, u32); (void)to_integer(s, n, i32);
+    (void)hex_to_integer(s, n, u64); (void)hex_to_integer(s, n, i64); (void)hex_to_integer(s, n, u32); (void)hex_to_integer(s, n, i32);
+}
